@@ -946,7 +946,109 @@ func (ev *gemEval) bind(obj types.Object, rhs ast.Expr, e *env) {
 func (ev *gemEval) foldTextFunc(fn *types.Func, args []ast.Expr, e *env) ([]Part, bool) {
 	info := ev.info()
 	sig, _ := fn.Type().(*types.Signature)
-	if sig == nil || sig.Recv() != nil || !isTextFunc(sig) || ev.depth > 4 {
+	if sig == nil || sig.Recv() != nil || ev.depth > 4 {
+		return nil, false
+	}
+	// a selector of code text: a function that returns one of several constants depending on its (boolean / string)
+	// parameters — the text is one of those constants (the one its conditions select, when they are known here)
+	if !isTextFunc(sig) && sig.Results().Len() == 1 && isStringType(sig.Results().At(0).Type()) {
+		for _, fd := range allFuncDecls(ev.g.pkg) {
+			if info.Defs[fd.Name] != types.Object(fn) || fd.Body == nil {
+				continue
+			}
+			// evaluate the body with the parameters that are known
+			e2 := newEnv()
+			k := 0
+			for _, prm := range fd.Type.Params.List {
+				for _, nm := range prm.Names {
+					if k < len(args) {
+						ob := info.Defs[nm]
+						if ob != nil && isStringType(ob.Type()) {
+							e2.vals[ob] = ev.fold(args[k], e)
+						} else if b, isB := ob.Type().Underlying().(*types.Basic); isB && b.Kind() == types.Bool {
+							if v, known := ev.constCond(args[k], e); known {
+								e2.bools[ob] = v
+							}
+						}
+					}
+					k++
+				}
+			}
+			var consts []string
+			okAll, nret := true, 0
+			var visit func(list []ast.Stmt) bool // true: the list always returns
+			visit = func(list []ast.Stmt) bool {
+				for _, st := range list {
+					switch x := st.(type) {
+					case *ast.ReturnStmt:
+						nret++
+						if len(x.Results) != 1 {
+							okAll = false
+							return true
+						}
+						if cs, isC := constString(info, x.Results[0]); isC {
+							consts = append(consts, cs)
+						} else {
+							okAll = false
+						}
+						return true
+					case *ast.IfStmt:
+						if x.Init != nil {
+							okAll = false
+							return true
+						}
+						if v, known := ev.constCond(x.Cond, e2); known {
+							if v {
+								if visit(x.Body.List) {
+									return true
+								}
+							} else if eb, ok := x.Else.(*ast.BlockStmt); ok {
+								if visit(eb.List) {
+									return true
+								}
+							} else if x.Else != nil {
+								okAll = false
+							}
+							continue
+						}
+						t := visit(x.Body.List)
+						el := false
+						if eb, ok := x.Else.(*ast.BlockStmt); ok {
+							el = visit(eb.List)
+						} else if x.Else != nil {
+							okAll = false
+						}
+						if t && el {
+							return true
+						}
+					default:
+						okAll = false
+						return true
+					}
+				}
+				return false
+			}
+			visit(fd.Body.List)
+			if !okAll || nret == 0 || len(consts) == 0 {
+				return nil, false
+			}
+			uniq := map[string]bool{}
+			var list []string
+			for _, cs := range consts {
+				if !uniq[cs] {
+					uniq[cs] = true
+					list = append(list, cs)
+				}
+			}
+			if len(list) == 1 {
+				return []Part{{Kind: PConst, Const: list[0]}}, true
+			}
+			sort.Strings(list)
+			return []Part{{Kind: PChoice, Choices: list, Src: fn.Name()}}, true
+		}
+		return nil, false
+	}
+	if !isTextFunc(sig) {
 		return nil, false
 	}
 	for _, fd := range allFuncDecls(ev.g.pkg) {
@@ -1728,7 +1830,7 @@ func (ev *gemEval) call(call *ast.CallExpr, e *env, onEmit func(*Emit)) []Node {
 			informative := cg.exprParametric || textFuncArg || cg.retGenVar != nil || cg.retTextual
 			for _, parts := range e2.vals {
 				for _, pt := range parts {
-					if pt.Kind == PConst || pt.Kind == PGenVar {
+					if pt.Kind == PConst || pt.Kind == PGenVar || pt.Kind == PChoice {
 						informative = true
 					}
 				}
